@@ -627,14 +627,14 @@ RECURSIVE RestoreFrom(_, _, _)
 RestoreFrom(s, pkts, i) ==
   IF i > Len(pkts) THEN s
   ELSE LET e == pkts[i] IN
-       IF e.kind = "publish" /\ e.qos = 0 THEN RestoreFrom(s, pkts, i + 1)
-       ELSE LET s1 == IF e.kind = "pubrel" THEN [s EXCEPT !.pubcomp = @ \cup {e.pid}]
-                      ELSE IF e.qos = 2 THEN [s EXCEPT !.pubrec = @ \cup {e.pid}]
-                      ELSE [s EXCEPT !.puback = @ \cup {e.pid}]
-                u == UseValue(s1.pool, e.pid)
-                s2 == IF u.ok /\ ~StoreHas(s1, e.pid) THEN [s1 EXCEPT !.pool = u.pool, !.store = Append(@, e)]
-                      ELSE IF u.ok THEN [s1 EXCEPT !.pool = u.pool] ELSE s1
-            IN  RestoreFrom(s2, pkts, i + 1)
+       IF e.kind = "publish" /\ e.qos = 0 THEN RestoreFrom(s, pkts, i + 1)          \* QoS 0 entry: skipped
+       ELSE LET u == UseValue(s.pool, e.pid) IN
+            IF ~u.ok \/ StoreHas(s, e.pid) THEN RestoreFrom(s, pkts, i + 1)         \* identifier already in use: skipped,
+            ELSE LET s1 == [s EXCEPT !.pool = u.pool, !.store = Append(@, e)]       \* WITHOUT a trace (DEV 37)
+                     s2 == IF e.kind = "pubrel" THEN [s1 EXCEPT !.pubcomp = @ \cup {e.pid}]
+                           ELSE IF e.qos = 2 THEN [s1 EXCEPT !.pubrec = @ \cup {e.pid}]
+                           ELSE [s1 EXCEPT !.puback = @ \cup {e.pid}]
+                 IN  RestoreFrom(s2, pkts, i + 1)
 RestorePackets(s, pkts) == RestoreFrom(s, pkts, 1)
 RestoreQos2(s, ids) == [s EXCEPT !.qos2 = ids]
 
